@@ -2,7 +2,9 @@
 
 use crate::architecture::Endian;
 use crate::il::*;
-use crate::translator::{BlockTranslationResult, Options, Translator};
+use crate::translator::{
+    ensure_block_in_address_space, BlockTranslationResult, Options, Translator,
+};
 use crate::Error;
 
 mod register;
@@ -58,6 +60,8 @@ fn translate_block(
     _endian: Endian,
     options: &Options,
 ) -> Result<BlockTranslationResult, Error> {
+    ensure_block_in_address_space(address, bytes.len())?;
+
     // A vec which holds each lifted instruction in this block.
     let mut block_graphs: Vec<(u64, ControlFlowGraph)> = Vec::new();
 
